@@ -392,10 +392,29 @@ impl TextSelection {
     /// Low-level method to get a textselection inside the current one
     /// Note: this is a low level method and will always return an unbound textselection!
     pub fn textselection_by_offset(&self, offset: &Offset) -> Result<TextSelection, StamError> {
-        let (begin, end) = (
-            self.begin + self.beginaligned_cursor(&offset.begin)?,
-            self.begin + self.beginaligned_cursor(&offset.end)?,
+        let (relbegin, relend) = (
+            self.beginaligned_cursor(&offset.begin)?,
+            self.beginaligned_cursor(&offset.end)?,
         );
+        let textlen = self.end() - self.begin();
+        if relbegin > textlen {
+            return Err(StamError::CursorOutOfBounds(
+                offset.begin,
+                "Begin cursor is out of bounds",
+            ));
+        } else if relend > textlen {
+            return Err(StamError::CursorOutOfBounds(
+                offset.end,
+                "End cursor is out of bounds",
+            ));
+        } else if relend < relbegin {
+            return Err(StamError::InvalidOffset(
+                offset.begin,
+                offset.end,
+                "End must be greater than or equal to begin",
+            ));
+        }
+        let (begin, end) = (self.begin + relbegin, self.begin + relend);
         Ok(TextSelection {
             intid: None,
             begin,
